@@ -1,4 +1,4 @@
-import YatimlModel.Model.Load
+import YatimlModel.Spec.AliasShape
 /-!
 # C18 — exactly the self-referential documents are rejected as cycles
 
@@ -17,20 +17,6 @@ expanded nodes.  The theorems relate it to `expandDoc`:
 namespace YatimlModel.C18
 open YatimlModel
 
-mutual
-/-- some alias in `d` names an anchor of a collection that encloses it (`opened`: the enclosing anchors) -/
-def selfRef (opened : List (String × Mark)) : Doc → Bool
-  | .scalar _ _ _ _ => false
-  | .seq a _ xs m => selfRefs (openAnchor a m opened) xs
-  | .map a _ ps m => selfRefPairs (openAnchor a m opened) ps
-  | .alias name _ => (opened.lookup name).isSome
-def selfRefs (opened : List (String × Mark)) : Docs → Bool
-  | .nil => false
-  | .cons x xs => selfRef opened x || selfRefs opened xs
-def selfRefPairs (opened : List (String × Mark)) : DocPairs → Bool
-  | .nil => false
-  | .cons k v r => selfRef opened k || selfRef opened v || selfRefPairs opened r
-end
 
 mutual
 theorem cycle_only_if_selfRef (opened : List (String × Mark)) (env : Anchors) (am : Mark) :
@@ -172,5 +158,150 @@ example : selfRef [] (.map (some "a") tMap
       (.cons (.scalar none tStr "k" ⟨0, 4⟩)
         (.seq none tSeq (.cons (.alias "a" ⟨0, 8⟩) .nil) ⟨0, 7⟩) .nil) ⟨0, 0⟩) = true := by
   simp [selfRef, selfRefs, selfRefPairs, openAnchor]
+
+/-! ### well-scoped documents: the cycle error is raised iff the document is self-referential
+
+PyYAML's composer only produces documents in which every alias names an anchor seen earlier in the
+stream (closed, `defd`) or the anchor of an enclosing collection (`opened`); it raises ComposerError
+otherwise.  `scopedDoc` is that condition, threading the set of closed anchor names. -/
+
+
+/-- every closed anchor name has an expanded node -/
+def Covers (env : Anchors) (defd : List String) : Prop := ∀ x ∈ defd, (env.lookup x).isSome = true
+
+theorem covers_note (a : Option String) (n : Node) (env : Anchors) (defd : List String)
+    (h : Covers env defd) : Covers (noteAnchor a n env) (noteName a defd) := by
+  cases a with
+  | none => simpa [noteAnchor, noteName] using h
+  | some name =>
+    intro x hx
+    simp only [noteName, List.mem_cons] at hx
+    simp only [noteAnchor, List.lookup_cons]
+    rcases hx with rfl | hx
+    · simp
+    · split
+      · rfl
+      · exact h x hx
+
+/-- the outcome of expanding a well-scoped document: a cycle error or a tree -/
+def Outcome (defd' : List String) {α : Type} (r : Except ExpandErr (α × Anchors)) : Prop :=
+  (∃ am, r = .error (.cycle am)) ∨ (∃ n env', r = .ok (n, env') ∧ Covers env' defd')
+
+mutual
+theorem expand_scoped (opened : List (String × Mark)) (env : Anchors) (defd defd' : List String)
+    (hc : Covers env defd) :
+    ∀ d : Doc, scopedDoc opened defd d = some defd' → Outcome defd' (expandDoc opened env d)
+  | .scalar a t v m, h => by
+    simp only [scopedDoc, Option.some.injEq] at h; subst h
+    unfold Outcome; simp only [expandDoc]; exact Or.inr ⟨_, _, rfl, covers_note _ _ _ _ hc⟩
+  | .seq a t xs m, h => by
+    simp only [scopedDoc] at h
+    split at h
+    · rename_i d' hd
+      simp only [Option.some.injEq] at h; subst h
+      rcases expand_scopeds (openAnchor a m opened) env defd d' hc xs hd with ⟨am, he⟩ | ⟨ys, env', he, hc'⟩
+      · exact Or.inl ⟨am, by simp [expandDoc, he]⟩
+      · unfold Outcome; simp only [expandDoc, he]; exact Or.inr ⟨_, _, rfl, covers_note _ _ _ _ hc'⟩
+    · cases h
+  | .map a t ps m, h => by
+    simp only [scopedDoc] at h
+    split at h
+    · rename_i d' hd
+      simp only [Option.some.injEq] at h; subst h
+      rcases expand_scopedPairs (openAnchor a m opened) env defd d' hc ps hd with ⟨am, he⟩ | ⟨qs, env', he, hc'⟩
+      · exact Or.inl ⟨am, by simp [expandDoc, he]⟩
+      · unfold Outcome; simp only [expandDoc, he]; exact Or.inr ⟨_, _, rfl, covers_note _ _ _ _ hc'⟩
+    · cases h
+  | .alias name m, h => by
+    simp only [scopedDoc] at h
+    split at h
+    · rename_i hs
+      simp only [Option.some.injEq] at h; subst h
+      cases ho : opened.lookup name with
+      | some am => exact Or.inl ⟨am, by simp [expandDoc, ho]⟩
+      | none =>
+        simp only [ho, Option.isSome_none, Bool.false_or, List.contains_iff_mem] at hs
+        have := hc name hs
+        obtain ⟨n, hn⟩ := Option.isSome_iff_exists.mp this
+        unfold Outcome; simp only [expandDoc, ho, hn]; exact Or.inr ⟨_, _, rfl, hc⟩
+    · cases h
+theorem expand_scopeds (opened : List (String × Mark)) (env : Anchors) (defd defd' : List String)
+    (hc : Covers env defd) :
+    ∀ xs : Docs, scopedDocs opened defd xs = some defd' → Outcome defd' (expandDocs opened env xs)
+  | .nil, h => by
+    simp only [scopedDocs, Option.some.injEq] at h; subst h
+    unfold Outcome; simp only [expandDocs]; exact Or.inr ⟨_, _, rfl, hc⟩
+  | .cons x xs, h => by
+    simp only [scopedDocs] at h
+    split at h
+    · rename_i d1 hd1
+      rcases expand_scoped opened env defd d1 hc x hd1 with ⟨am, he⟩ | ⟨y, env1, he, hc1⟩
+      · exact Or.inl ⟨am, by simp [expandDocs, he]⟩
+      · rcases expand_scopeds opened env1 d1 defd' hc1 xs h with ⟨am, he2⟩ | ⟨ys, env2, he2, hc2⟩
+        · exact Or.inl ⟨am, by simp [expandDocs, he, he2]⟩
+        · unfold Outcome; simp only [expandDocs, he, he2]; exact Or.inr ⟨_, _, rfl, hc2⟩
+    · cases h
+theorem expand_scopedPairs (opened : List (String × Mark)) (env : Anchors) (defd defd' : List String)
+    (hc : Covers env defd) :
+    ∀ ps : DocPairs, scopedPairs opened defd ps = some defd' → Outcome defd' (expandPairs opened env ps)
+  | .nil, h => by
+    simp only [scopedPairs, Option.some.injEq] at h; subst h
+    unfold Outcome; simp only [expandPairs]; exact Or.inr ⟨_, _, rfl, hc⟩
+  | .cons k v r, h => by
+    simp only [scopedPairs] at h
+    split at h
+    · rename_i d1 hd1
+      split at h
+      · rename_i d2 hd2
+        rcases expand_scoped opened env defd d1 hc k hd1 with ⟨am, he⟩ | ⟨k', env1, he, hc1⟩
+        · exact Or.inl ⟨am, by simp [expandPairs, he]⟩
+        · rcases expand_scoped opened env1 d1 d2 hc1 v hd2 with ⟨am, he2⟩ | ⟨v', env2, he2, hc2⟩
+          · exact Or.inl ⟨am, by simp [expandPairs, he, he2]⟩
+          · rcases expand_scopedPairs opened env2 d2 defd' hc2 r h with ⟨am, he3⟩ | ⟨r', env3, he3, hc3⟩
+            · exact Or.inl ⟨am, by simp [expandPairs, he, he2, he3]⟩
+            · unfold Outcome; simp only [expandPairs, he, he2, he3]; exact Or.inr ⟨_, _, rfl, hc3⟩
+      · cases h
+    · cases h
+end
+
+/-- **For composer output, the cycle error is raised iff the document is self-referential**, and every
+other well-scoped document expands to a tree (which `C18_transparent` then loads as the written-out
+document). -/
+theorem C18_cycle_iff_selfRef (d : Doc) (defd' : List String) (hs : scopedDoc [] [] d = some defd') :
+    (selfRef [] d = true ↔ ∃ m, expandDoc [] [] d = .error (.cycle m)) ∧
+    (selfRef [] d = false ↔ ∃ n env', expandDoc [] [] d = .ok (n, env')) := by
+  have hc : Covers [] [] := by intro x hx; cases hx
+  have ho := expand_scoped [] [] [] defd' hc d hs
+  constructor
+  · constructor
+    · intro h
+      obtain ⟨e, he⟩ := selfRef_never_expands [] [] d h
+      rcases ho with ⟨am, h1⟩ | ⟨n, env', h1, _⟩
+      · exact ⟨am, h1⟩
+      · rw [h1] at he; cases he
+    · rintro ⟨m, hm⟩
+      exact cycle_only_if_selfRef [] [] m d hm
+  · constructor
+    · intro h
+      rcases ho with ⟨am, h1⟩ | ⟨n, env', h1, _⟩
+      · have := cycle_only_if_selfRef [] [] am d h1
+        rw [h] at this; cases this
+      · exact ⟨n, env', h1⟩
+    · rintro ⟨n, env', h1⟩
+      cases hsr : selfRef [] d with
+      | false => rfl
+      | true =>
+        obtain ⟨e, he⟩ := selfRef_never_expands [] [] d hsr
+        rw [h1] at he; cases he
+
+/-- the hypothesis is satisfiable by a document with sharing: `[&x {k: 1}, *x]` -/
+example : (scopedDoc [] [] (.seq none tSeq
+      (.cons (.map (some "x") tMap (.cons (.scalar none tStr "k" ⟨0, 5⟩) (.scalar none tInt "1" ⟨0, 8⟩) .nil) ⟨0, 1⟩)
+      (.cons (.alias "x" ⟨0, 12⟩) .nil)) ⟨0, 0⟩)).isSome = true := by
+  simp [scopedDoc, scopedDocs, scopedPairs, openAnchor, noteName]
+
+/-- and by the cyclic `&a [*a]` -/
+example : (scopedDoc [] [] (.seq (some "a") tSeq (.cons (.alias "a" ⟨0, 4⟩) .nil) ⟨0, 0⟩)).isSome = true := by
+  simp [scopedDoc, scopedDocs, openAnchor, noteName]
 
 end YatimlModel.C18
